@@ -69,6 +69,9 @@ def generate(rng, tier, index):
     }
     # one empty transcript; not together with dynamic batch sizes unless sos/eos make its
     # loaded length positive: "x * y <= Y * batch_size" leaves x undefined for y = 0
+    if kind in ("spect", "ctx") and n >= 3 and rng.random() < 0.25:
+        # alignments / references missing for some utterances: the data set is the intersection
+        sc["missing"] = [[rng.randrange(n), rng.choice(["ali", "ref"])] for _ in range(rng.randrange(1, 3))]
     if kind == "lang" and rng.random() < 0.3 and n and not (sc["size_batch_by_length"] and sc["sos"] is None and sc["eos"] is None):
         sc["rlens"][rng.randrange(n)] = 0
     if rng.random() < 0.004:
@@ -124,8 +127,34 @@ class Corpus:
                 }
             )
 
+    def apply_missing(self):
+        """Drops the ali / ref files named in sc['missing'] and restricts self.utts to what a data
+        set over the directory contains (the intersection of the sub-directories it counts)."""
+        sc = self.sc
+        self.all_utts = list(self.utts)
+        miss = {"ali": set(), "ref": set()}
+        names = [None] * sc["n"]
+        for i, part in sc.get("missing") or []:
+            miss[part].add(i)
+        # self.utts is in sorted-name order; sc['missing'] indexes the generation order: map through ids
+        import random as _r
+
+        r = _r.Random(sc["salt"])
+        gen_names = [corpus.utt_name(r, i, sc["id_style"]) for i in range(sc["n"])]
+        miss_ids = {part: {gen_names[i] for i in idxs} for part, idxs in miss.items()}
+        for u in self.all_utts:
+            u["no_ali"] = u["id"] in miss_ids["ali"]
+            u["no_ref"] = u["id"] in miss_ids["ref"]
+        counts_ali = sc["with_ali"] and (sc["kind"] == "ctx" or not sc["suppress_alis"]) and any(not u["no_ali"] for u in self.all_utts)
+        counts_ref = sc["with_ref"] and any(not u["no_ref"] for u in self.all_utts)
+        self.utts = [u for u in self.all_utts if not (counts_ali and u["no_ali"]) and not (counts_ref and u["no_ref"])]
+
     def write(self):
         sc = self.sc
+        if sc["kind"] != "lang" and sc.get("missing"):
+            utts = [dict(u, ali=None if u["no_ali"] else u["ali"], ref=None if u["no_ref"] else u["ref"]) for u in self.all_utts]
+            corpus.write_spect_dir(self.dir, utts, prefix=sc["prefix"], suffix=sc["suffix"], with_ali=sc["with_ali"], with_ref=sc["with_ref"])
+            return
         if sc["kind"] == "lang":
             import os
 
@@ -491,9 +520,13 @@ def execute(sc):
     res = RunResult()
     sd = SimDist()
     fs = SimFS()
-    n, W = sc["n"], sc["W"]
+    W = sc["W"]
     kind = sc["kind"]
     corp = Corpus(sc)
+    if kind != "lang" and sc.get("missing"):
+        corp.apply_missing()
+        res.bump("fault.files_missing_for_some_utterances")
+    n = len(corp.utts)
     repro = {}
     with warnings.catch_warnings():
         warnings.simplefilter("ignore")
